@@ -413,7 +413,7 @@ func monC08(c *child.Ctx, replay json.RawMessage) {
 		}
 		return k
 	}
-	n := c.Share(c.Pick(200000, 20000000))
+	n := c.Share(c.Pick(1000000, 20000000))
 	for i := 0; i < n; i++ {
 		k := mk(timed[i%len(timed)])
 		k.Direct = i%4 == 3
